@@ -18,7 +18,7 @@
    harness - it would mean the materialiser and the model disagree).                                        *)
 EXTENDS Integers, FiniteSets, TLC, Json
 
-CONSTANTS Mode,        \* "traf" or "stbl"
+CONSTANTS Mode,        \* "traf", "stbl" or "mfra"
           MaxDev, DoExport
 
 TrafDims == [moov : {"enc", "frag", "none", "enc0"},
@@ -41,8 +41,19 @@ StblDims == [stsd : {"avc1", "none", "e0", "two"},
              stss : {"none", "s1", "s9", "e0", "s0"}]
 StblBase == [stsd |-> "avc1", stts |-> "n2", ctts |-> "none", stsc |-> "one", stsz |-> "tab2", stco |-> "c1", stss |-> "none"]
 
-Dims == IF Mode = "traf" THEN TrafDims ELSE StblDims
-Base == IF Mode = "traf" THEN TrafBase ELSE StblBase
+\* mfra: the random access index at the end of a file with two fragments; under the ISM flag the file decoder reads it FIRST
+\* (seek to the end, mfro size, tfra boxes) and uses the moof offsets of the first tfra as segment boundaries, after checking
+\* further tfra boxes against it (8.8.9 - 8.8.11)
+MfraDims == [tfra1 : {"e2", "e0", "e1", "none"},                     \* entries of the first tfra (one per fragment = e2)
+             tfra2 : {"none", "e2", "e3", "e1", "e2later"},          \* a second tfra: same / more / fewer entries, other moof offsets
+             ids : {"1-2", "1-1"},                                   \* track ids of the two tfra boxes
+             offs : {"match", "eof", "zero", "desc"},                \* moof offsets: the real ones, beyond the end, 0, descending
+             mfro : {"ok", "zero", "big", "none", "short"}]          \* mfro size: right, 0, beyond the file, box absent, smaller than the mfra
+MfraBase == [tfra1 |-> "e2", tfra2 |-> "none", ids |-> "1-2", offs |-> "match", mfro |-> "ok"]
+MfraConsistent(c) == c.tfra1 = "e2" /\ c.tfra2 \in {"none", "e2"} /\ c.ids = "1-2" /\ c.offs = "match" /\ c.mfro = "ok"
+
+Dims == IF Mode = "traf" THEN TrafDims ELSE IF Mode = "stbl" THEN StblDims ELSE MfraDims
+Base == IF Mode = "traf" THEN TrafBase ELSE IF Mode = "stbl" THEN StblBase ELSE MfraBase
 Dev(c) == Cardinality({k \in DOMAIN c : c[k] # Base[k]})
 
 (* what the standard allows *)
@@ -58,7 +69,7 @@ TrafConsistent(c) ==
 StblConsistent(c) ==
     /\ c.stsd = "avc1" /\ c.stts = "n2" /\ c.ctts \in {"none", "n2"} /\ c.stsc = "one"
     /\ c.stsz \in {"tab2", "uni2"} /\ c.stco \in {"c1", "co64"} /\ c.stss \in {"none", "s1"}
-Consistent(c) == IF Mode = "traf" THEN TrafConsistent(c) ELSE StblConsistent(c)
+Consistent(c) == IF Mode = "traf" THEN TrafConsistent(c) ELSE IF Mode = "stbl" THEN StblConsistent(c) ELSE MfraConsistent(c)
 
 VARIABLES combo, phase
 vars == <<combo, phase>>
